@@ -133,7 +133,9 @@ fn session_with(rt: &tokio::runtime::Runtime, rng: &mut Rng, start: (u64, u64), 
     let seed = rng.next();
     rt.block_on(async {
         let sim = Sim::start().await;
-        let base = Utc.with_ymd_and_hms(2024, 3, 1, 0, 0, 0).single().expect("base");
+        // every fourth session the uploader's clock is a day and a half AHEAD of this machine's: the poller's estimate of the
+        // next chunk time lies in the future and it takes its sleep-until branch (virtual time) before every request
+        let base = if seed % 4 == 3 { Utc.timestamp_opt(Utc::now().timestamp() + 129_600, 0).single().expect("future base") } else { Utc.with_ymd_and_hms(2024, 3, 1, 0, 0, 0).single().expect("base") };
         let world = Arc::new(Mutex::new(World { up: (0, 0), count: 0, volume_serial: 0, prefix_of: HashMap::new(), uploaded: HashMap::new(), base, system: if system { Some((crate::icd::Layouts::load(), Rng::new(seed ^ 0x5157))) } else { None }, next_id: 1, radials: HashMap::new(), short_len }));
         {
             let mut w = world.lock().expect("world");
